@@ -518,10 +518,60 @@ def r12_options_not_rebound(ctx, rule):
         ctx.ok(rule, 'lib_guesser/grammar_io.py', 'none of the %d option parameters is assigned in the function that receives it' % n)
 
 
+def r13_options_forwarded(ctx, rule):
+    """An option a library function receives is handed on to every callee that takes the same option: inside lib_guesser a function
+    with a parameter skip_brute / skip_case / base_structure_folder passes it (by that name) to each repository function it calls
+    that has a parameter of the same name.  A callee parameter left to its default silently replaces what the user asked for (seed
+    C01-j: load_grammar got keyword defaults and the call in PcfgGrammar.__init__ lost base_structure_folder, so PRINCE-LING
+    loaded Grammar/grammar.txt)."""
+    n = 0
+    bad = False
+    for q, fn in ctx.repo.all_funcs():
+        if not q.startswith('lib_guesser/'):
+            continue
+        mine = [p_ for p_ in params(fn) if p_ in OPTION_PARAMS]
+        if not mine:
+            continue
+        for c in calls_in(fn):
+            for tq in sorted(ctx.resolver.resolve_call(q, c) or ()):
+                if tq.startswith('ext:') or not ctx.repo.has(tq):
+                    continue
+                callee = ctx.repo.fn(tq)
+                cps = params(callee)
+                shift = 1 if (cps and cps[0] in ('self', 'cls') and not isinstance(c.func, ast.Name)) or tq.endswith('.__init__') else 0
+                for p_ in mine:
+                    if p_ not in cps:
+                        continue
+                    n += 1
+                    pos = cps.index(p_) - shift
+                    a = None
+                    if 0 <= pos < len(c.args) and not any(isinstance(x, ast.Starred) for x in c.args):
+                        a = c.args[pos]
+                    for k in c.keywords:
+                        if k.arg == p_:
+                            a = k.value
+                        if k.arg is None:
+                            a = a or k.value      # **kwargs: not decided below
+                    if a is None:
+                        bad = True
+                        ctx.bad(rule, q, 'option %s is not passed on to %s' % (p_, tq.partition('::')[2]),
+                                "the callee falls back to its default and the run silently ignores what the caller was given", None, c)
+                    elif not (isinstance(a, ast.Name) and a.id == p_):
+                        if any(k.arg is None for k in c.keywords) or not isinstance(a, ast.Name):
+                            bad = True
+                            ctx.unk(rule, q, 'option %s reaches %s as %s' % (p_, tq.partition('::')[2], U(a)[:40]))
+                        else:
+                            bad = True
+                            ctx.bad(rule, q, 'option %s reaches %s as %s' % (p_, tq.partition('::')[2], U(a)[:40]),
+                                    'another value takes the place of the option', None, c)
+    if ctx.floor(rule, 'lib_guesser/grammar_io.py', n, 4, 'option hand-overs inside lib_guesser') and not bad:
+        ctx.ok(rule, 'lib_guesser/grammar_io.py', 'all %d hand-overs of skip_brute / skip_case / base_structure_folder pass the option on by name' % n)
+
+
 def rules(tier):
     return [('C14.R1', r1_rewind), ('C14.R2', r2_renormalisation), ('C14.R3', r3_skip_case),
             ('C14.R4', r4_restored_flags_live), ('C14.R5', lambda c, r: c08.r5_sav_keys(c, r, sections=('rule_info',), floor=4)), ('C14.R6', c01.r8_uniform_scale), ('C14.R7', r7_probabilities_immutable), ('C14.R8', r8_loader_stateless), ('C14.R9', c08.r11_restore_is_verbatim),
-            ('C14.R10', _seeding), ('C14.R11', r11_loaders_read_only), ('C14.R12', r12_options_not_rebound)]
+            ('C14.R10', _seeding), ('C14.R11', r11_loaders_read_only), ('C14.R12', r12_options_not_rebound), ('C14.R13', r13_options_forwarded)]
 
 
 META = {
